@@ -188,9 +188,9 @@ def gen_dataset(rng, prof):
         times = [(t + 300 * i, t + 300 * i, 1, 1) for i in range(len(p[2]))]
         d.trips.append((1, p[0], 1, times))
     d.scens.append((1, [[1, 2], [], [], [], [], [], [], [], []]))
-    # scenario 2 admits service 1 only; a third of the time its list NAMES IT TWICE (as many entries as there are services in
+    # scenario 2 admits service 1 only; a third of the time its list NAMES IT TWICE OR THREE TIMES (the cache directories also hold a service 0; as many entries as there are services in
     # the data without naming them all: shortcuts that compare list sizes show here)
-    d.scens.append((2, [[1, 1] if rng.chance(0.33) else [1], [], [], [], [], [], [], [], []]))
+    d.scens.append((2, [[1] * rng.choice([2, 3, 3]) if rng.chance(0.33) else [1], [], [], [], [], [], [], [], []]))
     lines = [l[0] for l in d.lines]
 
     def restricted(depth=0):
